@@ -282,6 +282,6 @@ pub fn def() -> PropDef {
             "intermittent requests (one every n-th interval, n + 1 < lifetime): only 'no expiry' is asserted",
         ],
         abort_possible: false,
-        parts: |tier| vec![part("keep_alive_and_lifetime", tier.pick(800, 20000), case(), run)],
+        parts: |tier| vec![part("keep_alive_and_lifetime", tier.pick(800, 100_000), case(), run)],
     }
 }
